@@ -2388,7 +2388,7 @@ def run(ctx):
         "their replies (general loss and reordering are C06/C07)"]
     mult = 4 if ctx.extended else 1
     n_forest = ctx.scale(1000, 30000) * mult
-    n_load = ctx.scale(120, 1500) * mult
+    n_load = ctx.scale(120, 1350) * mult
     n_codec = ctx.scale(2000, 40000) * mult
     forests = [gen_forest(ctx.rng) for _ in range(n_forest)]
     for i in range(0, len(forests), 2000):
